@@ -567,6 +567,13 @@ def monitors(scn, trace):
             anycanc = any(st[i] == "CANCELLED" for i in range(1, n + 1))
             if o.ret == "FINISHED" and not allok:
                 bad("C05", "verdict-truthful", "op %d: FINISHED but states are %s" % (k, st))
+            if o.ret == "FINISHED" and not dry:
+                # "FINISHED only when every step finished successfully": by the scheduler's word (or the
+                # exit code of a local run), not by Maestro's own table
+                unproven = [i for i in range(1, n + 1) if i not in succeeded]
+                if unproven:
+                    bad("C05", "verdict-truthful", "op %d: FINISHED although the jobs of steps %s were never "
+                        "reported FINISHED by the scheduler" % (k, unproven[:5]))
             if o.ret == "FINISHED" and cancel_requested_at is not None:
                 bad("C05", "verdict-truthful", "op %d: FINISHED although a cancel was requested at op %d" % (k, cancel_requested_at))
             if allok and cancel_requested_at is None and o.ret != "FINISHED":
